@@ -115,6 +115,8 @@ impl<K: Clone + PartialEq + Eq + Hash + std::fmt::Debug + std::cmp::PartialOrd, 
 
     #[inline(always)]
     pub(crate) fn get(&self, key: K) -> Option<AsyncLruCacheEntry<V>> {
+        #[cfg(feature = "verif-hooks")]
+        verif_tick();
         let map = self.rmap.read().unwrap();
         if let Some(entry) = map.get(&key) {
             self.update_lru(entry);
@@ -201,6 +203,33 @@ impl<K: Clone + PartialEq + Eq + Hash + std::fmt::Debug + std::cmp::PartialOrd, 
             Some((key.clone(), entry))
         }
     }
+}
+
+#[cfg(feature = "verif-hooks")]
+thread_local! {
+    static VERIF_TICKS: std::cell::Cell<u64> = const { std::cell::Cell::new(u64::MAX) };
+}
+
+/// verif-hooks: set how many cache lookups the current thread may still perform before a
+/// lookup panics with "verif: tick budget exceeded" (u64::MAX = unlimited). Lets an external
+/// harness turn an endless retry loop that never suspends into a deterministic failure.
+#[cfg(feature = "verif-hooks")]
+pub fn verif_set_tick_budget(n: u64) {
+    VERIF_TICKS.with(|t| t.set(n));
+}
+
+#[cfg(feature = "verif-hooks")]
+fn verif_tick() {
+    VERIF_TICKS.with(|t| {
+        let v = t.get();
+        if v == 0 {
+            t.set(u64::MAX);
+            panic!("verif: tick budget exceeded");
+        }
+        if v != u64::MAX {
+            t.set(v - 1);
+        }
+    });
 }
 
 #[cfg(feature = "verif-hooks")]
